@@ -110,10 +110,11 @@ struct Access {
             if (style) { typename A::shape_type sh{}; for (size_t i = 0; i < s.size(); i++) sh[i] = s[i]; return a.resize(sh); }
             return resize_var(a, s, std::make_index_sequence<(size_t)Tr::fixed_rank>{});
         } else {
-            if (style) {
-                if constexpr (Tr::family == LEGACY_DYNAMIC) { a.resize(s); return true; }
-                else return a.resize(s);
-            }
+            if constexpr (Tr::family == LEGACY_DYNAMIC) {
+                // three overloads: variadic extents (style 0), const shape_type& (style 1), generic index array (style 2)
+                if (style == 2) { std::vector<int> si(s.begin(), s.end()); a.resize(si); return true; }
+                if (style == 1) { a.resize(s); return true; }
+            } else if (style) return a.resize(s);
             switch (s.size()) {
                 case 1: return resize_var(a, s, std::make_index_sequence<1>{});
                 case 2: return resize_var(a, s, std::make_index_sequence<2>{});
@@ -172,7 +173,7 @@ struct ArrTarget : Target {
             int op = lo; if (total) { int x = (int)r.below((uint64_t)total); while (x >= w[op]) { x -= w[op]; op++; } }
             Step s; s.op = ops[(size_t)op];
             // args: obj, src, n, rank, e0, e1, e2, style
-            s.a = {o, (long)r.below((uint64_t)nobj), (long)r.below(64), r.chance(0.08) ? 4 : 1 + (long)r.below(3), 1 + (long)r.below(4), 1 + (long)r.below(4), 1 + (long)r.below(4), (long)r.below(2)};
+            s.a = {o, (long)r.below((uint64_t)nobj), (long)r.below(64), r.chance(0.08) ? 4 : 1 + (long)r.below(3), 1 + (long)r.below(4), 1 + (long)r.below(4), 1 + (long)r.below(4), (long)r.below(3)};
             if (s.op == "resize" && r.chance(0.5)) {
                 // bias toward shapes that are interesting for this kind: same element count / at a capacity edge
                 static const long fav[][4] = {{3, 2, 3, 2}, {3, 2, 2, 3}, {3, 3, 2, 2}, {2, 3, 4, 1}, {2, 4, 3, 1}, {2, 2, 3, 1}, {1, 4, 1, 1}, {3, 1, 3, 4}, {3, 4, 3, 1}, {2, 2, 2, 1}, {3, 1, 1, 1}, {1, 1, 1, 1}, {3, 3, 4, 1}, {2, 3, 2, 1}};
@@ -249,7 +250,7 @@ struct ArrTarget : Target {
                 env->applied(op, on + " " + shape_str(s), true);
             } else if constexpr (Tr::family == LEGACY_DYNAMIC) {
                 // a default-constructed dynamic_ndarray has rank 0 and no storage; give it its first shape right away
-                Shape s = step_shape(st); { Sut x; Acc::resize(*obj(o), s, (int)st.arg(7) & 1); }
+                Shape s = step_shape(st); { Sut x; Acc::resize(*obj(o), s, (int)(st.arg(7) % 3)); }
                 model[o].shape = s; model[o].val.assign(prod(s), std::nullopt);
                 env->applied(op, on + " " + shape_str(s), true);
             } else { after_construct(o); env->applied(op, on + " " + shape_str(model[o].shape), true); }
@@ -272,7 +273,7 @@ struct ArrTarget : Target {
             if (Tr::constant_shape || Tr::family == LEGACY_FIXED) { probe("resize.not_offered"); return false; }
             Shape s = step_shape(st);
             if (Tr::family == LEGACY_HYBRID && (long)s.size() != Tr::fixed_rank) { probe("resize.not_expressible"); return false; }
-            int style = (int)st.arg(7) & 1;
+            int style = (int)(st.arg(7) % 3); if (Tr::family != LEGACY_DYNAMIC) style &= 1;
             bool expect = model_accepts(s);
             Snap before = snapshot(a);
             bool got; { Sut x; got = Acc::resize(a, s, style); }
